@@ -11,6 +11,7 @@
 #include <cstdlib>
 #include <thread>
 #include <vector>
+#include "stress_watchdog.h"
 #ifndef W_MUTEX
 #define W_MUTEX 1
 #endif
@@ -59,7 +60,8 @@ int main(int argc, char ** argv)
 	if(! g_out || std::sscanf(argv[2], "%d:%d", &T, &N) != 2 || T < 1 || T > 8 || N < 1) return 2;
 	unsigned seed = (unsigned)std::strtoul(argv[4], 0, 10);
 	long n = std::atol(argv[5]);
-	for(long i = 0; i < n; ++i) execute(i, T, N, seed + (unsigned)i);
+	startStressWatchdog(g_out);
+	for(long i = 0; i < n; ++i) { execute(i, T, N, seed + (unsigned)i); ++g_stressProgress; }
 	std::fclose(g_out);
 	std::fprintf(stderr, "STATS {\"executions\":%ld,\"stuck\":0,\"exhausted\":0}\n", n);
 	return 0;
